@@ -163,6 +163,9 @@ class CSym(object):
         self.literal_names = {}     # name -> (float value, exact term): decimal literals read as the irrational number they round (assumption, opt-in)
         self.literals_used = set()
         self.global_arrays = {}
+        self.genv_entry = {}
+        self.genv = {}                        # file-scope variables that are not const: value at the current point (entry value = arbitrary: any call history)
+        self.ghost = {}                       # ghost state attached by callee contracts to objects (keyed by variable name)
         self._isqrt = {}
         self.monotone_tables = set()   # names of int location tables assumed non-decreasing and non-negative (a requires clause of the caller)
         self.hyps = []                        # the function's `requires` (used when separating a read from an earlier write)
@@ -378,18 +381,31 @@ class CSym(object):
             return
         # symbolic: execute both sides under guards and merge scalar state
         e1, e2 = dict(env), dict(env)
+        g0 = dict(self.genv)
         self.guards.append(c)
         try:
             r1 = self._branch(inner[1], e1, tu)
         finally:
             self.guards.pop()
+        g1 = self.genv
+        self.genv = dict(g0)
         self.guards.append(tm.mk_not(c))
         try:
             r2 = self._branch(inner[2], e2, tu) if len(inner) > 2 else None
         finally:
             self.guards.pop()
+        g2 = self.genv
         if r1 is not None or r2 is not None:
             raise CUnsupported("return/break under a symbolic condition")
+        self.genv = {}
+        for name in set(g1) | set(g2):
+            a, b = g1.get(name, self.genv_entry.get(name)), g2.get(name, self.genv_entry.get(name))
+            if a is b:
+                self.genv[name] = a
+            elif isinstance(a, (int, Q, T)) and isinstance(b, (int, Q, T)):
+                self.genv[name] = tm.mk_ite(c, tm.lift(a), tm.lift(b))
+            else:
+                raise CUnsupported("file-scope variable %s assigned a non-scalar under a symbolic condition" % name)
         for name in set(e1) | set(e2):
             a, b = e1.get(name), e2.get(name)
             if a is b:
@@ -1037,12 +1053,38 @@ class CSym(object):
             return ("fn", name)
         if name in env:
             return env[name]
+        gv = self._global_scalar(name)
+        if gv is not None:
+            return gv
+        raise CUnsupported("unknown identifier %s" % name)
+
+    def _global_decl(self, name):
         for t in self.tus:
             if name in t.globals:
-                g = t.globals[name]
-                if g.get("inner"):
-                    return self.rvalue(g["inner"][0], {}, t)
-        raise CUnsupported("unknown identifier %s" % name)
+                return t, t.globals[name]
+        return None, None
+
+    def _global_scalar(self, name):
+        """Value of a file-scope scalar: its initialiser when const-qualified; otherwise the current value of mutable file-scope state, which on entry
+        is an arbitrary value (the function may run after any history of earlier calls)."""
+        t, g = self._global_decl(name)
+        if g is None:
+            return None
+        qt = g.get("type", {}).get("qualType", "")
+        if "const" in qt:
+            if g.get("inner"):
+                return self.rvalue(g["inner"][0], {}, t)
+            return None
+        if "[" in qt or "*" in qt:
+            return None
+        base = qt.replace("static ", "").replace("volatile ", "").strip()
+        if not (is_int_type(base) or base in ("double", "float")):
+            return None                       # struct objects are referred to by address only; contracts keep their ghost state
+        if name not in self.genv:
+            if name not in self.genv_entry:
+                self.genv_entry[name] = fresh("entry_" + name, "I" if is_int_type(base) else "R")
+            self.genv[name] = self.genv_entry[name]
+        return self.genv[name]
 
     def e_UnaryExprOrTypeTraitExpr(self, n, env, tu):
         ty = (n.get("argType") or {}).get("qualType") or ""
@@ -1265,9 +1307,9 @@ class CSym(object):
     def load(self, lv, env):
         if lv[0] == "var":
             if lv[1] not in env:
-                for t in self.tus:
-                    if lv[1] in t.globals and t.globals[lv[1]].get("inner"):
-                        return self.rvalue(t.globals[lv[1]]["inner"][0], {}, t)
+                gv = self._global_scalar(lv[1])
+                if gv is not None:
+                    return gv
                 raise CUnsupported("unknown variable %s" % lv[1])
             v = env[lv[1]]
             if isinstance(v, Undef):
@@ -1285,6 +1327,10 @@ class CSym(object):
             if self.in_parallel and not self.in_single and not self.dry and self.par is None and not self._is_private(lv[1]):
                 # executed by every thread of the team on a variable that lives outside the region
                 self.side.append(("shared-scalar-write", lv[1], (), (), self.fn_stack[-1]))
+            if lv[1] not in env and self._global_decl(lv[1])[1] is not None:
+                self._global_scalar(lv[1])
+                self.genv[lv[1]] = v
+                return
             env[lv[1]] = v
         elif lv[0] == "field":
             lv[1].fields[lv[2]] = v
